@@ -200,6 +200,9 @@ def main(tier):
     run_programs(chk, tally, B['prog2'][seed % 3::3] if quick else B['prog2'], [], 'prog2')
     samples.append(prog_text(json.loads(B['prog2'][len(B['prog2']) // 2])))
     run_programs(chk, tally, B['prog4'][seed % 2::2] if quick else B['prog4'], [], 'prog4')
+    # rectangle leaves with an inflated tolerance (SetTolerance(0.75) changes nothing on a rectangle): Booleans must still
+    # resolve half-lattice features at epsilon
+    run_programs(chk, tally, B['prog2'][seed % 3::3] if quick else B['prog2'], ['--inflate'], 'prog2I')
     run_programs(chk, tally, B['batch'][seed % 3::3] if quick else B['batch'], [], 'batch')
     samples.append(prog_text(json.loads(B['prog4'][len(B['prog4']) // 2])))
     run_programs(chk, tally, B['sim'], [], 'sim')
